@@ -420,6 +420,13 @@ func c19run(w *report.W) {
 					return fmt.Sprint(ordered.Equal(m, other), ordered.Equal(other, m), ordered.Equal(m, m))
 				}},
 				{"TransformValues", true, func() string { return fmt.Sprint(ordered.TransformValues(m, func(v any) int { return 1 }).Len()) }},
+				{"TransformValues, then editing the result", true, func() string {
+					t := ordered.TransformValues(m, func(v any) int { return 1 })
+					t.Set("tv-new", 2)
+					t.Range(func(k string, _ int) error { t.Delete(k); return fmt.Errorf("stop") })
+					t.Replace("tv-new", "a", 3)
+					return fmt.Sprint(t.Len() >= 0)
+				}},
 			})
 			_ = model
 			if d < depth {
@@ -431,6 +438,38 @@ func c19run(w *report.W) {
 		frontier = next
 	}
 	w.P.Bounds["map_states"] = fmt.Sprintf("%d implementation states to depth %d", len(seen), depth)
+	// maps carrying many tombstones (n keys, the first half renamed onto the second half: n/2 tombstones, n/2 live; and
+	// n keys with just under half deleted): every observer leaves storage and index as they are
+	for _, n := range []int{4, 8, 16, 17, 32, 64} {
+		for _, shape := range []string{"renamed-onto-existing", "deleted-just-under-half"} {
+			m := ordered.NewMap[string, any](0)
+			for i := 0; i < n; i++ {
+				m.Set(fmt.Sprintf("k%02d", i), i)
+			}
+			if shape == "renamed-onto-existing" {
+				for i := 0; i < n/2; i++ {
+					m.Replace(fmt.Sprintf("k%02d", i), fmt.Sprintf("k%02d", i+n/2), -i)
+				}
+			} else {
+				for i := 0; i < (n-1)/2; i++ {
+					m.Delete(fmt.Sprintf("k%02d", 2*i))
+				}
+			}
+			label := fmt.Sprintf("map of %d keys, %s", n, shape)
+			w.P.States++
+			w.P.Nontrivial++
+			c19guard(w, label, &m, []c19op{
+				{"Len", true, func() string { return fmt.Sprint(m.Len(), m.IsZero()) }},
+				{"Get", true, func() string { v, ok := m.Get("k00"); return fmt.Sprint(v, ok, m.Contains("k01")) }},
+				{"Range", true, func() string { c := 0; m.Range(func(string, any) error { c++; return nil }); return fmt.Sprint(c) }},
+				{"ToMap", true, func() string { return fmt.Sprint(len(m.ToMap()), ordered.ToMapRecursive(m) != nil) }},
+				{"MarshalJSON", true, func() string { b, _ := json.Marshal(m); return fmt.Sprint(len(b)) }},
+				{"MarshalYAML", true, func() string { b, _ := yaml.Marshal(m); return fmt.Sprint(len(b)) }},
+				{"Equal", true, func() string { return fmt.Sprint(ordered.Equal(m, m)) }},
+				{"TransformValues", true, func() string { return fmt.Sprint(ordered.TransformValues(m, func(v any) int { return 1 }).Len()) }},
+			})
+		}
+	}
 
 	// ---- 1b. pipelines of the <=1/2-deviation docgen slice: every operation leaves globals untouched; observers leave the pipeline untouched
 	devBound := 1
@@ -609,7 +648,7 @@ func init() {
 		ID:      "C19",
 		Workers: 1,
 		Rule: "(1) state invariant by deep snapshot: in every implementation state of the ordered map reachable in <=4/5 operations, for every generated pipeline (<=1/2 deviations), every signed command step and three key sets, " +
-			"each observer (Len/Get/Contains/Range/ToMap/Marshal*/Equal/TransformValues; json/yaml Marshal, FullSource, SignedFields, ValuesForFields, Sign, Matrix.IsEmpty, a rejected matrix permutation; Verify; Validate) leaves the " +
+			"each observer (Len/Get/Contains/Range/ToMap/Marshal*/Equal/TransformValues; json/yaml Marshal, FullSource, SignedFields, ValuesForFields, Sign, Matrix.IsEmpty, a rejected matrix permutation; Verify; Validate) (also on maps of 4..64 keys half of whose slots are tombstones, and on the result of TransformValues being edited) leaves the " +
 			"observed object's memory unchanged, and NO operation (including Parse, Interpolate, SignSteps) changes any package-level variable of any repository package (table generated by the instrumenter); " +
 			"(2) cooperative scheduler: 2-3 harness threads (full lifecycles on distinct documents with distinct keys; observers of one shared tombstoned map; readers of one shared signed pipeline) interleaved at operation " +
 			"boundaries and at every instrumented statement that touches a package-level variable or writes through a field / index / pointer inside the library, all schedules with <=k preemptions, every thread's results == its solo " +
